@@ -4,6 +4,7 @@
 // per-instance table; callbacks occupy a bounded number of table slots.
 // Shaped after the out-of-tree wasm2c plug-in.  Include AFTER rlbox.hpp.
 #pragma once
+#include <atomic>
 #include <cstdint>
 #include <cstring>
 #include <map>
@@ -57,6 +58,7 @@ struct FaultBox
 {
   int malloc_fail = 0; // next N sandbox allocations return 0
   int malloc_straddle = 0; // next allocation returns a block touching the end
+  int malloc_wild = 0; // next allocation returns a guest pointer beyond the region; its translation (once) is base + that value
   int create_fail = 0; // next impl_create_sandbox returns false
   int grant_refuse = 0; // next grant/deny says success=false
   bool refuse_echoes_pointer = false; // ... and hands back the caller's pointer unchanged (the result is meaningless without success)
@@ -414,6 +416,8 @@ protected:
   {
     if (sim::g_ctx)
       sim::g_ctx->probe("backend_asked_to_translate_null_function_pointer");
+    // a plug-in that validates what it is asked to translate: there is no function 0
+    detail::dynamic_check(false, "sim backend: asked to translate a null function pointer / function index 0");
   }
   template<typename T>
   inline void* impl_get_unsandboxed_pointer(T_PointerType p) const
@@ -425,6 +429,10 @@ protected:
       }
       return reinterpret_cast<void*>(repval(p));
     } else {
+      if (wild_rep_once != 0 && repval(p) == wild_rep_once) {
+        wild_rep_once = 0;
+        return mem.base + repval(p);
+      }
       return mem.base + (repval(p) & (mem.size - 1));
     }
   }
@@ -445,8 +453,12 @@ protected:
 
   using Finder = rlbox_sim_sandbox* (*)(const void*);
 
+  // the core's registry lookup, as handed to the hooks above; kept so that a world can ask, at quiescence, whether an
+  // object that was destroyed is still listed
+  static inline std::atomic<Finder> captured_finder{ nullptr }; // (atomic: harness state shared by the caller threads)
   static inline uintptr_t base_from_example(const void* example, Finder finder)
   {
+    captured_finder.store(finder, std::memory_order_relaxed);
     if (cfg.registry) {
       in_finder = true;
       rlbox_sim_sandbox* s = nullptr;
@@ -517,6 +529,17 @@ protected:
       sim::bev("backend malloc(%zu) -> 0 (injected)", size);
       return mkrep(0);
     }
+    if (sim::g_fault.malloc_wild > 0) {
+      // a compromised in-sandbox allocator answers with a pointer that lies wholly outside the sandbox's memory (in the
+      // application's page behind it); this plug-in, like one that adds guest offsets to a base inside a larger
+      // reservation, translates it without wrapping
+      sim::g_fault.malloc_wild--;
+      if (sim::g_ctx)
+        sim::g_ctx->fired("F4_sbx_malloc_wild_pointer");
+      wild_rep_once = (uint32_t)(mem.size + 64);
+      sim::bev("backend malloc(%zu) -> %u (beyond the region, injected)", size, wild_rep_once);
+      return mkrep(wild_rep_once);
+    }
     if (sim::g_fault.malloc_straddle > 0) {
       sim::g_fault.malloc_straddle--;
       if (sim::g_ctx)
@@ -586,7 +609,12 @@ protected:
   }
   inline bool impl_is_pointer_in_app_memory(const void* p)
   {
-    return !impl_is_pointer_in_sandbox_memory(p);
+    // answered independently of "in MY memory": the memory of another live sandbox is not application memory either
+    auto u = reinterpret_cast<uintptr_t>(p);
+    for (auto& r : sim::g_regions)
+      if (u >= r.base && u - r.base < r.size)
+        return false;
+    return true;
   }
   inline size_t impl_get_total_memory() { return mem.size; }
   inline void* impl_get_memory_location() { return mem.base; }
@@ -745,11 +773,27 @@ protected:
   }
 
 public:
+  static inline bool destroyed_object_still_listed(rlbox_sim_sandbox* obj)
+  {
+    Finder finder = captured_finder.load(std::memory_order_relaxed);
+    if (!finder || obj->rem_size == 0)
+      return false;
+    in_finder = true;
+    rlbox_sim_sandbox* s = nullptr;
+    try {
+      s = finder(reinterpret_cast<const void*>(obj->rem_base + 8));
+    } catch (...) {
+    }
+    in_finder = false;
+    return s == obj;
+  }
+
   RLBOX_SHARED_LOCK(table_lock);
   uintptr_t rem_base = 0; // what the object remembers about its memory (not reset by destroy / failed create)
   size_t rem_size = 0;
   static inline thread_local bool in_finder = false;
   uint32_t last_free_rep = 0;
+  mutable uint32_t wild_rep_once = 0;
   uint64_t n_frees = 0;
   uint64_t n_lookups = 0;
   uint64_t n_mallocs = 0;
